@@ -12,19 +12,19 @@ CHECKS = {
          "The C05 schedule space plus the action 'drop reply future j', enabled at every scheduler step for every future that lives in its own task (so at each of its suspension points) and 'drop without polling'; survivors must resolve to their own replies and a request issued afterwards must succeed. One run in 64 runs over the real TLS / SSH / local transports against the scripted peer: replies cut into chunks, the task awaiting one or two replies aborted between two chunks (inside the transport read if it is the reader).",
          "Same trusted base as C05. Only reply futures are dropped, not rpc() calls in progress. On the real transports drops fall between two deliveries of the peer, not between two polls.",
          "deterministic simulation: seeded scheduler with cancellation injected at suspension points"),
- "C08": ("S-sim", "exploration", "DESIGN.md §5 C08",
+ "C08": ("S-sim", "exploration", "DESIGN.md §5 C08 In one run of six the send of another outstanding request reports an I/O error after its bytes went out; the server's reply to that abandoned request must not be taken for the reply to a later one.",
          "Reply documents are generated from the NETCONF/Junos reply grammar (0-4 rpc-error elements of every type/tag/severity with optional children, positive indications, load-configuration-results with consistent or inconsistent load-error-count, in every order) and delivered through the real receive path to one request of each reply type among other outstanding requests. Oracle from the generated document: Ok implies no error-severity rpc-error and the operation's positive indication; Err(RpcError(list)) implies list == the document's rpc-errors in order.",
          "Decided mainly by generated peer behaviour; the schedule varies in the delivery order of the replies and the order in which the reply futures are awaited. Trusted: the generator's own model of each rpc-error; comparison uses Display (type, severity) and Debug (tag, message, path, info) of the library's error values.",
          "deterministic simulation: generated server replies through the real session, document-derived oracle"),
- "C09": ("S-sim", "exploration", "DESIGN.md §5 C09 The url capability URI carries its scheme list alone or next to other query arguments.",
+ "C09": ("S-sim", "exploration", "DESIGN.md §5 C09 The url capability URI carries its scheme list alone or next to other query arguments. One request in 19 is a builder sequence that leaves a parameter out (no target, no source, ...): whatever then reaches the wire must still be licensed.",
          "The server hello advertises a seeded subset of the RFC 6241 capabilities (every url-scheme combination) and optionally the Junos capability; 1-5 requests per session cover every builder with every datastore, filter type, option value and parameter. Soundness is judged on the content found on the wire (parsed by the harness) against a table transcribed from RFC 6241 section 8; completeness on the intended content; a rejected call must leave nothing on the wire.",
          "Trusted: the requirement table in props/c09.rs (edit-config to <startup/> is treated like the library does). load-configuration from a URL cannot be constructed through the public API and is not covered.",
          "deterministic simulation: capability-set x request matrix sampled through the real builders, wire-content oracle"),
- "C10": ("S-sim + R-sim", "exploration", "DESIGN.md §5 C10 A caller-supplied payload whose serialisation fails half-way must make the call fail, send nothing and leave later messages unaffected.",
+ "C10": ("S-sim + R-sim", "exploration", "DESIGN.md §5 C10 A caller-supplied payload whose serialisation fails half-way must make the call fail, send nothing and leave later messages unaffected. The failing caller-supplied payload is used with edit-config and with load-configuration. Half of the large-request runs meet 4 KiB socket buffers and a slow TLS peer.",
          "Every text-valued and fragment-valued parameter site of every operation (19 sites), alone or together with the other parameters of its operation (commit, commit-configuration, edit-config combinations), is driven with adversarial values; one run in 1500 sends a 70-260 KiB request over the real transports under back-pressure; (XML metacharacters, quotes, ']]>', the delimiter itself, entity look-alikes, comment/CDATA/PI openers, non-ASCII, empty) and generated well-formed fragments. The fake server frames the byte stream by the delimiter like a real one and parses with the harness's strict XML parser: exactly one message per rpc(), well-formed, value read back unchanged, fragments equal as subtrees.",
          "Decided by generated parameter values. The agent's own payloads (policy names, comments) are covered through A-sim in C01. Attribute-valued parameters are generated without tab/newline.",
          "deterministic simulation: adversarial parameter values through the real serialisers, strict server-side parse"),
- "C12": ("S-sim + R-sim(TLS)", "exploration", "DESIGN.md §5 C12",
+ "C12": ("S-sim + R-sim(TLS)", "exploration", "DESIGN.md §5 C12 Enumerated over the real TLS / local / SSH transports as well: a valid hello cut at each position of its delimiter, and valid hellos of 1018-1030 and 2047-2050 bytes in one unit, must establish a usable session.",
          "Seeded: the hello matrix (base 1.0/1.1/both/neither x other capabilities x session-id variants x namespace style x XML declaration x element order x malformed hellos incl. a second <capabilities> and a foreign-namespace capability element x a write error on the client's own hello) under permuted scheduling of the simultaneous hello exchange (hello available early, or server waits for the client's hello; client send back-pressure). Oracle: established iff well-formed, valid session-id and a common base version; negotiated = highest common; reported id and capability set = the hello's; first rpc succeeds.",
          "The framing half (a conforming :base:1.1 peer uses chunked framing) needs the real transports and is run over real TLS as the enumerated part.",
          "deterministic simulation: hello matrix x exchange order; framing against a conforming peer over the real TLS transport"),
@@ -32,7 +32,7 @@ CHECKS = {
          "Metamorphic pairs: each generated hello / rpc-reply / configuration document is serialised canonically and under a seeded composition of information-preserving rewrites (8 kinds), both are parsed by the real readers; accept/reject and value must agree. A divergence is narrowed to a single rewrite site; the class (message kind, rewrite, element) identifies the finding, and a known divergence does not hide another one in the same message.",
          "Trusted: the harness serialiser (self-checked on every run: both serialisations must be the same document for the harness's own parser).",
          "deterministic simulation: metamorphic serialisation pairs through the real readers"),
- "C14": ("S-sim + R-sim", "exploration", "DESIGN.md §5 C14 The harness is built with overflow checks, so an arithmetic overflow in a reader is a panic; leaf values are also replaced by numbers up to and beyond 2^64.",
+ "C14": ("S-sim + R-sim", "exploration", "DESIGN.md §5 C14 The harness is built with overflow checks, so an arithmetic overflow in a reader is a panic; leaf values are also replaced by numbers up to and beyond 2^64. One run in 150: over the real transports, a hostile message (not UTF-8, not XML, cut short, empty) among 2-4 replies that arrive as one byte stream with 0-3 cuts; every call completes within 5 virtual seconds and a value is the caller's own reply.",
          "One run in 150: over the real transports the hello or a reply is cut short and the peer then goes away (C07's close kinds). Otherwise a session with 1-4 outstanding requests in separate tasks; the hello or one reply is replaced by a mutation of the valid message (20 mutation kinds incl. truncation at any offset, splices, byte flips, invalid UTF-8, huge numbers, 64 KiB / 4 MiB text, deep nesting, random bytes, one leaf text or attribute value replaced by long ASCII + multi-byte text); the mutated reply answers one of six operations (get, lock, open-, close-, load-, commit-configuration) and starts from one of that operation's valid reply shapes or a complete rpc-error, so that every reply reader is reached. Oracle: no panic, quiescence within the step budget, every other request still resolves to its own reply (at most one innocent reader may err), no poll hangs (watchdog). The same mutations are fed to the agent's two configuration readers.",
          "Mutations that name another outstanding message-id are skipped. A non-returning poll is caught by a 20 s real-time watchdog (class spin).",
          "deterministic simulation: mutated server bytes with other requests outstanding, seeded delivery order"),
@@ -52,15 +52,15 @@ CHECKS = {
          "1-2 faults at seeded positions of open -> get-config x2 -> load x N -> commit -> close-configuration -> close-session, 14 fault kinds (rpc-error, a load that is refused but partially merged, error in load results with/without <ok/>, <ok/> followed by an error, a reply without any content, malformed, truncated, unknown id, another outstanding id, duplicate, close before/after the reply, warning+ok as a non-fault), with reply delays so that a failing load reply arrives after later loads were sent. Oracle on the server's per-session request log and delivery flags.",
          "The fake server's classification of its own replies (positive / negative / garbage) is the reference for 'acknowledged'.",
          "deterministic simulation: fault position x fault kind injection against a recording server, virtual delays"),
- "C06": ("R-sim", "fault_enumeration", "DESIGN.md §5 C06 One seeded run in ten drops the reading future between two deliveries (bytes already taken off the stream must stay with the transport).",
+ "C06": ("R-sim", "fault_enumeration", "DESIGN.md §5 C06 One seeded run in ten drops the reading future between two deliveries (bytes already taken off the stream must stay with the transport). One seeded run in 25 is the outgoing direction: a 70-260 KiB request, in half of these runs over 4 KiB socket buffers to a TLS peer that reads slowly; the peer must frame every request once and complete without further traffic.",
          "Real TLS, SSH and local-CLI transports against a scripted peer on one paused-clock runtime; one chunk = one TLS record / SSH CHANNEL_DATA / pipe write, delivered in lock-step. Enumerated per transport: every single cut within 8 bytes of each delimiter, every pair of cuts inside a delimiter, all groupings of 2-3 replies, one-byte chunks, 41 reply sizes around the receive-buffer boundaries; plus seeded cut sets. Oracle: each request resolves to its own reply within 100 virtual ms of its delimiter's last byte.",
          "Relies on synchronous loopback/pipe delivery (Nagle disabled on the client socket by the harness); guarded by the standing re-execution check. Absolute virtual instants are kept out of the event log.",
          "deterministic simulation: segmentation enumeration over real transports, scripted peer, paused clock"),
- "C07": ("R-sim", "fault_enumeration", "DESIGN.md §5 C07",
+ "C07": ("R-sim", "fault_enumeration", "DESIGN.md §5 C07 Job level (15 enumerated scenarios): the agent executable in daemon mode against FakeJunos on a TLS listener and FakeIrrd on loopback TCP; the router closes at request 0-4 of the run while the IRRd answers or has gone silent (evaluation still in progress); the daemon must report the failed job within 10 s of real time.",
          "Enumerated (close point x outstanding requests x close kind) per transport - TLS close_notify+FIN / FIN / RST, SSH channel EOF / close / EOF+close / TCP FIN / TCP RST, local EOF / child killed - plus seeded variants. Oracle: establishment, every pending request and one further request fail within 5 virtual seconds; a client that stops making virtual-time progress (spin inside a poll, or endless re-polling that freezes the paused clock) is caught by the worker watchdog and reported as class spin/<transport>/<close kind>.",
          "The spin watchdog reads a real clock (8 s).",
          "deterministic simulation: disconnect injection at every session phase over real transports, spin watchdog"),
- "C11": ("I-sim", "exploration", "DESIGN.md §5 C11",
+ "C11": ("I-sim", "exploration", "DESIGN.md §5 C11 One database in four has 1-4 filter-sets, some holding constructs that cannot be evaluated or a literal list of 300-1200 prefixes (5-20 KB of object text); a client that keeps reading into a full buffer is reported as evaluation-spins.",
          "The real RpslEvaluator over the vendored irrc pipeline whose socket is an in-memory stream with seeded short reads and partial writes, against FakeIrrd over a generated database (nested/cyclic/hierarchical as-sets, v4-only/v6-only/routeless ASes, duplicates, nested route-sets, filter-sets; thorough: >1000 pipelined queries). One run in 40 is a C01-style history of real agent runs (router state == reference set split by family). One run in 16 evaluates through the bgpfu executable (child process) over a loopback TCP connection to FakeIrrd and compares the printed ranges. Oracle: equality with rpsl's evaluator over a resolver that reads the database directly.",
          "rpsl expression semantics and generic-ip set algebra are trusted (both sides). NOT is only generated over ANY and short IPv4 literal sets: generic-ip's complement is exponential in prefix length (seconds for a /24, unbounded for IPv6). The agent half is checked by C01.",
          "deterministic simulation: IRR protocol model with seeded segmentation, reference evaluation"),
@@ -68,15 +68,15 @@ CHECKS = {
          "Agent runs over 1-10 managed policies of which some are unevaluable (unknown as-set, IRR error, PeerAS, AS-path regex, community match) in all (seeded) hash orders; one run in 60 is made end to end by the agent executable. Oracle: the run succeeds, evaluable policies reach their reference sets and are committed, unevaluable ones are untouched.",
          "Same trusted base as C01.",
          "deterministic simulation: unevaluable members x evaluation order through the real agent"),
- "C16": ("A-sim", "exploration", "DESIGN.md §5 C16 One run in 400 is a C01-style history of real agent runs (the reader fed through the session's reply routing, spawned tasks starting in seeded order).",
+ "C16": ("A-sim", "exploration", "DESIGN.md §5 C16 One run in 400 is a C01-style history of real agent runs (the reader fed through the session's reply routing, spawned tasks starting in seeded order). One configuration in eight repeats a statement name: the reader may reject the reply as a whole but must not pick one of two selected statements silently.",
          "Running configurations from a grammar (annotation present/absent/near-miss/unparseable, decorations, jcmd:active, four attribute orders incl. Junos's duplicate xmlns:jcmd, special characters in names and expressions, five body shapes) through the real candidate reader; oracle: (name, expression) set == an independent selection over the generated description.",
          "Decided by generated peer output, not by schedule or faults (see DESIGN.md §6): the simulator contributes the router model that renders the documents.",
          "generated router configurations through the real reader vs independent selection"),
- "C17": ("I-sim", "exploration", "DESIGN.md §5 C17",
+ "C17": ("I-sim", "exploration", "DESIGN.md §5 C17 One run in eight is a long history: 12-48 (thorough 12-101) evaluations on one evaluator from a small pool over a database whose filter-sets may hold unevaluable constructs (the evaluation unwinds, as under the agent's catch_unwind) or very long prefix lists.",
          "2-10 expressions evaluated in sequence on one evaluator (one pipelined connection) with 0-3 IRR error responses injected at seeded query ordinals, multi-object filter-set responses (partly consumed), seeded read segmentation. Oracle: every evaluation whose own queries were not faulted equals the fresh-connection reference, in particular after a faulted one.",
          "Same trusted base as C11.",
          "deterministic simulation: evaluation histories with injected IRR errors on one connection"),
- "C19": ("A-sim", "exploration", "DESIGN.md §5 C19",
+ "C19": ("A-sim", "exploration", "DESIGN.md §5 C19 One plan in 12 is a long outage: 34-80 consecutive failing attempts without SIGHUP (months of virtual time).",
          "The real Loop::start on a paused clock (periods 1 s .. 1 day), scripted outcomes per connection attempt (success / connect failure / rpc-error or disconnect at a seeded request / the job panics, job durations 0..3 periods), SIGHUP and SIGINT/SIGTERM raised with libc::raise at seeded virtual instants. Oracle over the timeline of attempts and observed job ends: period after success, 60 s first retry, monotone growth up to max(60 s, period), never zero without SIGHUP, SIGHUP while waiting => run at that instant, terminating signal while waiting => clean exit at that instant. Enumerated part: the agent executable as a child process (real clock, real signals, closed port): -f 0 makes one attempt and exits with failure, a daemon announces 60 s first and then non-shrinking delays bounded by max(60 s, period) for jobs started by SIGHUP, and exits 0 on SIGTERM / SIGINT.",
          "Job end is observed at the transport (refusal, first negative reply / EOF, positive close-session reply).",
          "deterministic simulation: virtual-time timelines with scripted outcomes and real signals"),
